@@ -42,6 +42,8 @@ type stubAgent struct {
 	slots   []string
 	cert    *x509.Certificate
 	fwdFail bool
+	// slowOn: the n-th call takes that long (on the simulated clock) before it answers - honestly
+	slowOn map[int]time.Duration
 	// smartcard: requests 20 / 21 / 26 get the success or failure octet of an ssh-agent instead of the echo
 	smartcard bool
 }
@@ -49,6 +51,9 @@ type stubAgent struct {
 func (s *stubAgent) rec(c call) error {
 	n := len(s.calls)
 	s.calls = append(s.calls, c)
+	if d, ok := s.slowOn[n]; ok {
+		time.Sleep(d) // a touch that is waited for, a smartcard that takes its time
+	}
 	if txt, ok := s.failOn[n]; ok {
 		return errors.New(txt)
 	}
@@ -114,7 +119,18 @@ func (s *stubAgent) Forward(req []byte) ([]byte, error) {
 	if err := s.rec(call{Op: "forward", Data: bytes.Clone(req)}); err != nil {
 		return nil, err
 	}
-	return append([]byte{0xEE}, req...), nil
+	return echoReply(req), nil
+}
+
+// echoReply is what the stub answers to a raw relay: a marker octet and the request - cut so that the answer is itself
+// a frame the protocol can carry (a request of exactly 16 MiB would otherwise get an answer one octet too long, which
+// ServeAgent rightly cannot send).
+func echoReply(req []byte) []byte {
+	const maxFrame = 16 << 20
+	if len(req) >= maxFrame {
+		req = req[:maxFrame-1]
+	}
+	return append([]byte{0xEE}, req...)
 }
 
 func (s *stubAgent) AddHardCert(key ssh.PublicKey, comment string) error {
